@@ -104,7 +104,14 @@ def _script(r, client, world, counter):
         elif g == "foreign":
             add("ld.deserialize", {"text": {"foreign": P(f"ndoc{i}")}, "fmt": fmt, "expect": P(f"ndoc{i}"), "ascii": r.random() < 0.5})
         elif g == "inplace":
-            if r.random() < 0.5:
+            x = r.random()
+            if x < 0.2:
+                add("ld.undictify_flat", {"doc": P(f"ndoc{i}")})
+                add("ld.undictify_flat", {"doc": P(f"ndoc{i}")})
+            elif x < 0.35:
+                add("ld.dictify_flat", {"doc": P(f"doc{i}")})
+                add("ld.dictify_flat", {"doc": P(f"doc{i}")})
+            elif r.random() < 0.5:
                 add("ld.undictify_all", {"doc": P(f"ndoc{i}")})
                 if r.random() < 0.5:
                     add("ld.undictify_all", {"doc": P(f"ndoc{i}")})
